@@ -354,6 +354,23 @@ class C01(Check):
                             acc.violation('decode-depends-on-history', {'kind': 'hist', 'seq': list(seq)},
                                           {'record': k, 'got': repr(o), 'solo': repr(solo[k])})
                             break
+            # the record handed over as other bytes-like objects (bytearray, memoryview over a buffer that is REUSED afterwards): the
+            # event keeps its own copy of what it decoded
+            for k, b in enumerate(P):
+                for kind in ('bytearray', 'memoryview', 'memoryview-of-reused-buffer'):
+                    buf = bytearray(b)
+                    arg = buf if kind == 'bytearray' else memoryview(buf)
+                    try:
+                        e = from_kd_buf(arg)
+                        if kind == 'memoryview-of-reused-buffer':
+                            buf[:] = bytes(64)          # the caller reads the next record into the same buffer
+                        o = (e.timestamp, bytes(e.data), tuple(e.values), e.tid, e.debugid, e.eventid, e.func_qualifier)
+                        bad = None if o == ref_decode(b) and isinstance(e.data, bytes) else ('decode-of-bytes-like-record-differs', {'input': kind, 'got': repr(o)[:200]})
+                    except Exception as ex:
+                        bad = ('decode-raised:' + type(ex).__name__, {'input': kind, 'error': repr(ex)[:100]})
+                    acc.case(nontrivial=True, transitions=1, outcome=h64(('bytes-like', kind)))
+                    if bad:
+                        acc.violation(bad[0], {'kind': 'hist', 'seq': [k], 'input': kind}, bad[1])
             acc.sample({'history_of_pool_indices': [0, 2, 1]})
 
     def _one(self, acc, b, case, nontrivial):
